@@ -1,4 +1,6 @@
 pub mod parse_props;
+pub mod read_props;
+pub mod xform_props;
 
 use crate::runner::{Ctx, KnownFindings, Report};
 
@@ -13,5 +15,10 @@ pub fn registry() -> Vec<(&'static str, CheckFn, ReplayFn)> {
     vec![
         ("C01", parse_props::check_c01 as CheckFn, parse_props::replay_c01 as ReplayFn),
         ("C02", parse_props::check_c02, parse_props::replay_c02),
+        ("C03", read_props::check_c03, read_props::replay_c03),
+        ("C04", read_props::check_c04, read_props::replay_c04),
+        ("C05", xform_props::check_c05, xform_props::replay_c05),
+        ("C06", xform_props::check_c06, xform_props::replay_c06),
+        ("C07", xform_props::check_c07, xform_props::replay_c07),
     ]
 }
